@@ -202,14 +202,18 @@ theorem step_inv (s : State) (op : Op) (hop : op.early = true) (h : Inv s) : Inv
         · cases le with
           | unbound fx =>
             dsimp only
-            exact inv_site s h _ _ l _ _ _ rfl fmtS4_mem (tail_zeros 4 _ _ rfl)
+            split
+            · exact h
+            · exact inv_site s h _ _ l _ _ _ rfl fmtS4_mem (tail_zeros 4 _ _ rfl)
           | bound lsec loff =>
             dsimp only
             split
-            · dsimp only
-              exact h.frame (frame_emit _ _ h.cur)
-            · dsimp only
-              exact inv_site s h _ _ l _ _ _ rfl fmtS4_mem (tail_zeros 4 _ _ rfl)
+            · split
+              · exact h
+              · exact h.frame (frame_emit _ _ h.cur)
+            · split
+              · exact h
+              · exact inv_site s h _ _ l _ _ _ rfl fmtS4_mem (tail_zeros 4 _ _ rfl)
   | a64 k l a =>
     simp only [step]
     split
